@@ -1,0 +1,25 @@
+//go:build verif
+
+package dvid
+
+import "sync/atomic"
+
+// verifHook holds the callback installed by the verification harness (build tag "verif").
+var verifHook atomic.Value // of func(string)
+
+// SetVerifHook installs (or with nil removes) the callback invoked at every VerifPoint.
+func SetVerifHook(f func(site string)) {
+	if f == nil {
+		verifHook.Store((func(string))(nil))
+		return
+	}
+	verifHook.Store(f)
+}
+
+// VerifPoint marks a site of interest (write point, read-modify-write boundary) and calls the
+// harness callback if one is installed.
+func VerifPoint(site string) {
+	if f, ok := verifHook.Load().(func(string)); ok && f != nil {
+		f(site)
+	}
+}
